@@ -227,7 +227,7 @@ def _fr(f) -> str:
     return "F" + out.getvalue().hex()
 
 
-def run_step(cls: str, o: Opts, ops: list[tuple], integration: str = "generic") -> str:
+def run_step(cls: str, o: Opts, ops: list[tuple], integration: str = "generic", info: list | None = None) -> str:
     """ops: ('enroll',) ('flush',) ('t', stmt) ('q', stmt) ('g', gid, triples) ('ns', name, iri).
     integration='rdflib': the stream is built with for_rdflib and fed rdflib terms (RDF 1.1 terms only)."""
     try:
@@ -258,7 +258,17 @@ def run_step(cls: str, o: Opts, ops: list[tuple], integration: str = "generic") 
                 out.append(_fr(stream.quad(op[1])))
             elif kind == "g":
                 frames: list = []
-                err = _consume(stream.graph(op[1], op[2]), frames)
+                pulled = [0]
+
+                def counted(triples=op[2], pulled=pulled):
+                    for t in triples:
+                        pulled[0] += 1
+                        yield t
+
+                err = _consume(stream.graph(op[1], counted()), frames)
+                if info is not None:
+                    # triples of this graph that were accepted: all pulled ones, minus the one that raised
+                    info.append(dict(op=len(out), accepted=pulled[0] - (1 if err is not None and pulled[0] else 0)))
                 s = "+".join(_fr(f) for f in frames) if frames else "-"
                 out.append(s + ("" if err is None else "!" + err_name(err)))
             elif kind == "ns":
